@@ -2,8 +2,10 @@
 """Apply every seeded change to /repo in turn, run the quick check of its property, record which
 violation keys fire (seeded/RESULTS.json and each meta.json), undo the change.
 
-Usage: tools/seedmatrix.py [ID-k ...]   (default: all under seeded/)
-Never run while something else uses /repo's working tree.
+Usage: tools/seedmatrix.py [--repo DIR] [ID-k ...]   (default: all under seeded/)
+With --repo DIR the changes are applied to that checkout (a scratch worktree of /repo's HEAD) and the checks run
+against it through VERIF_REPO, so /repo itself is never touched.  Without it: never run while something else uses
+/repo's working tree.
 """
 import json
 import os
@@ -20,25 +22,31 @@ def sh(cmd, **kw):
 
 
 def main():
-    names = sys.argv[1:] or sorted(d for d in os.listdir(SEEDED) if os.path.isdir(os.path.join(SEEDED, d)))
-    status = sh("git -C /repo status --porcelain --untracked-files=no").stdout.strip()
+    args = sys.argv[1:]
+    repo = "/repo"
+    if args[:1] == ["--repo"]:
+        repo = os.path.abspath(args[1])
+        args = args[2:]
+        os.environ["VERIF_REPO"] = repo
+    names = args or sorted(d for d in os.listdir(SEEDED) if os.path.isdir(os.path.join(SEEDED, d)))
+    status = sh("git -C %s status --porcelain --untracked-files=no" % repo).stdout.strip()
     if status:
-        sys.exit("refusing: /repo has tracked modifications:\n" + status)
+        sys.exit("refusing: the checkout has tracked modifications:\n" + status)
     res_path = os.path.join(SEEDED, "RESULTS.json")
     results = json.load(open(res_path)) if os.path.exists(res_path) else {}
     for name in names:
         d = os.path.join(SEEDED, name)
         prop = name.split("-")[0]
         patch = os.path.join(d, "patch.diff")
-        if sh("git -C /repo apply --check %s" % patch).returncode != 0:
+        if sh("git -C %s apply --check %s" % (repo, patch)).returncode != 0:
             results[name] = {"property": prop, "applies": False}
             print(name, "PATCH DOES NOT APPLY")
             continue
-        sh("git -C /repo apply %s" % patch)
+        sh("git -C %s apply %s" % (repo, patch))
         try:
             r = sh("./check %s --tier quick" % prop, cwd=HERE)
         finally:
-            sh("git -C /repo checkout -- .")
+            sh("git -C %s checkout -- ." % repo)
         keys = sorted(set(re.findall(r"^VIOLATION property=\S+ replay=\S+\s+key=(\S+)", r.stdout, re.M)))
         inconc = re.findall(r"^INCONCLUSIVE .*", r.stdout, re.M)
         results[name] = {"property": prop, "applies": True, "exit": r.returncode, "caught": bool(keys),
